@@ -851,6 +851,89 @@ func groupClusters(n, k int) {
 	}
 }
 
+// random reference graphs (C07 / C13, build caches): g graphs of m structs each; pointer, list,
+// set and map edges go anywhere inside the graph (cycles included), by-value edges only to
+// lower-numbered members (Go forbids by-value cycles); some members are invalid, and a member is
+// accepted exactly when no invalid member is reachable from it.
+func groupGraphs(g, m int) {
+	for gi := 0; gi < g; gi++ {
+		var ms []*Struct
+		for i := 0; i < m; i++ {
+			ms = append(ms, newStruct("graph"))
+		}
+		bad := map[int]bool{}
+		nbad := rng.Intn(3)
+		if gi == 0 {
+			nbad = 0
+		}
+		for i := 0; i < nbad; i++ {
+			bad[rng.Intn(m)] = true
+		}
+		edges := make([][]int, m)
+		for i, st := range ms {
+			st.add("V", prim("int32"), 1, "default")
+			ne := rng.Intn(4)
+			if i == m-1 && ne == 0 {
+				ne = 2
+			}
+			for e := 0; e < ne; e++ {
+				j := rng.Intn(m)
+				var t *Ty
+				req := "default"
+				switch rng.Intn(6) {
+				case 0:
+					if j < i {
+						t = sref(ms[j])
+					} else {
+						t = ptr(sref(ms[j]))
+						req = "optional"
+					}
+				case 1:
+					t = ptr(sref(ms[j]))
+					req = "optional"
+				case 2:
+					t = list(ptr(sref(ms[j])))
+				case 3:
+					t = mapOf(prim("string"), ptr(sref(ms[j])))
+				case 4:
+					if j < i {
+						t = list(sref(ms[j]))
+					} else {
+						t = set(ptr(sref(ms[j])))
+					}
+				default:
+					t = mapOf(ptr(sref(ms[j])), list(ptr(sref(ms[(j+1)%m]))))
+					edges[i] = append(edges[i], (j+1)%m)
+				}
+				edges[i] = append(edges[i], j)
+				st.add(fmt.Sprintf("E%d", e), t, 2+e, req)
+			}
+			if bad[i] {
+				st.addRaw("Bad", prim("uint32"), `frugal:"40,default"`, -1, false)
+			}
+		}
+		// acceptance = no invalid member reachable
+		for i, st := range ms {
+			seen := map[int]bool{}
+			todo := []int{i}
+			ok := true
+			for len(todo) > 0 {
+				x := todo[len(todo)-1]
+				todo = todo[:len(todo)-1]
+				if seen[x] {
+					continue
+				}
+				seen[x] = true
+				if bad[x] {
+					ok = false
+				}
+				todo = append(todo, edges[x]...)
+			}
+			st.Accept = ok
+		}
+	}
+}
+
 // ---------- random part ----------
 
 func randScalar() *Ty {
@@ -1076,6 +1159,7 @@ func main() {
 	groupSpellings()
 	groupInvalid()
 	groupClusters(10, 14)
+	groupGraphs(8, 7)
 	groupRandom(*nrand, *depth)
 	emit(*out)
 	fmt.Printf("gentypes: %d structs\n", len(structs))
